@@ -34,6 +34,8 @@ def run(ctx):
             sp = gen.make_spec(rng, D=rng.choice([1, 2, 3]), geom=rng.choice(["box", "tight", "logbox"]), mode=mode, cons=rng.choice([None, None, "halfspace"]),
                                target=rng.choice(["quad", "abs"]))
             sp["options"] = {"n_search": 32, "max_fun_evals": (sp["D"] + 24) if mode == "det" else 58, "noise_final_samples": 3}
+            if rng.random() < 0.5:
+                sp["options"]["gp_warnings"] = True
             specs.append(sp)
     clean = tracer.cached("c16clean", ctx.seed, ctx.tier, lambda: [(sp, {"want": ("ctl", "gp")}) for sp in specs])
     jobs, meta = [], []
